@@ -211,10 +211,10 @@ def run_container(ctx, case):
 
 
 def edits_strategy(tier):
-    types = ["emg", "platCal", "data3D", "force3D", "events", "optical", "platData"]
+    types = ["emg", "platCal", "data3D", "force3D", "events", "optical", "platData", "data2D", "events"]
     return st.sampled_from(types).flatmap(lambda t: st.fixed_dictionaries({
         "spec": specs.SPEC[t](tier, 2), "hints": specs.HINTS,
-        "edits": st.lists(st.tuples(st.sampled_from(["remove", "remove", "add"]), st.integers(0, 50)).map(list), min_size=1, max_size=5)}))
+        "edits": st.lists(st.tuples(st.sampled_from(["remove", "remove", "add", "inplace"]), st.integers(0, 50)).map(list), min_size=1, max_size=5)}))
 
 
 def run_edits(ctx, case):
@@ -228,9 +228,34 @@ def run_edits(ctx, case):
     if ok:
         cls = specs.lib_class(t)
         fresh = specs.build(spec, hints)  # a second, independent copy to take new items from
+        check_sizes(ctx, t, f"{t}-before-edits", blk, lambda: specs.lib_write(blk), lambda s_: cls._build(s_, spec["format"]))  # sizes are read once before editing
         for kind, k in case["edits"]:
             try:
-                if kind == "remove":
+                if kind == "inplace":
+                    # content changed through public attributes of the block / its items, sizes re-read afterwards
+                    if t == "data2D":
+                        nf, nc = blk.data.shape
+                        if not nf or not nc:
+                            continue
+                        pts = np.full((1 + k % 5, 2), float(k), dtype=["<f4", "<f8"][k % 2])
+                        blk.data[k % nf, (k // 3) % nc] = pts if k % 4 else None
+                    elif t == "events":
+                        evs = [e for e in blk.events if e.type.value == 1]
+                        if not evs:
+                            continue
+                        e = evs[k % len(evs)]
+                        e.values = np.append(e.values, float(k)) if k % 2 else np.array(list(e.values) + [float(k)], dtype="<f4")
+                    elif t in ("data3D", "emg"):
+                        its = list(blk)
+                        if not its:
+                            continue
+                        it = its[k % len(its)]
+                        it.data = it.data.astype("<f8") if k % 2 else np.ascontiguousarray(it.data[::-1])[::-1]
+                        if k % 3 == 0 and len(it.data) > 1:
+                            it.data[0] = np.nan if not np.isnan(np.asarray(it.data[0]).ravel()[0]) else 1.0
+                    else:
+                        continue
+                elif kind == "remove":
                     if t == "emg":
                         its = list(blk)
                         if not its:
@@ -254,6 +279,8 @@ def run_edits(ctx, case):
                         del blk.channels[k % len(blk.channels)]
                     else:
                         continue
+                elif t == "data2D":
+                    continue   # a 2D block has no item list to add to / remove from; only in-place cell edits apply
                 else:
                     src = list(fresh) if t not in ("platCal", "platData") else [p for _, p in (fresh.platforms if t == "platCal" else list(fresh))]
                     if not src:
